@@ -125,9 +125,14 @@ class _OkCall(grpc.Call):
     def add_callback(self, cb): return False
 
 
+def _ident(x):
+    return x
+
+
 class _MC:
     def __init__(self, ch, path, ser, de):
-        self.ch, self.path, self.ser, self.de = ch, path, ser, de
+        # grpc semantics: a missing (de)serializer means raw bytes pass through
+        self.ch, self.path, self.ser, self.de = ch, path, ser or _ident, de or _ident
         self.sim = ch.sim
 
 
